@@ -18,6 +18,7 @@
   the statement.  That the real code does not panic is checked by the harness (`PANIC` output).
 -/
 import DuckModel.Lemmas.VarScopeLemmas
+import DuckModel.Props.C11Scripts
 
 namespace Duck
 open Duck.VarScope Duck.Spec.MapStack
@@ -65,12 +66,12 @@ theorem C11_names_nodup (ops : List VsOp) :
     state as it was; through the runner the only change is `false` in the output variable
     (none if the line has no output variable). -/
 theorem C11_pop_empty_changes_nothing (st : VsSt) (args : List Str) (h : st.stack = []) :
-    runCmd st .popStack args = (st, .error []) ∧
+    VarScope.runCmd st .popStack args = (st, .error []) ∧
     VarScope.apply st (.cmd none .popStack args) = (st, .res (.error [])) ∧
     ∀ o, VarScope.apply st (.cmd (some o) .popStack args) =
       ({ st with vars := st.vars.set o "false".toList }, .res (.error [])) := by
-  have h1 : runCmd st .popStack args = (st, .error []) := by
-    simp [runCmd, scopePop, h]
+  have h1 : VarScope.runCmd st .popStack args = (st, .error []) := by
+    simp [VarScope.runCmd, VarScope.scopePop, h]
   refine ⟨h1, ?_, ?_⟩
   · simp [VarScope.apply, h1, writeOutput, Vars.updateOutput]
   · intro o
@@ -84,9 +85,9 @@ theorem C11_lifo (st : VsSt) (o1 : Option Str) (pushArgs : List Str) (mid : List
     (popArgs : List Str) (hb : balanced 0 mid = true) :
     let st1 := (VarScope.apply st (.cmd o1 .pushStack pushArgs)).1
     let st2 := (VarScope.run st1 mid).1
-    let st3 := (runCmd st2 .popStack popArgs).1
+    let st3 := (VarScope.runCmd st2 .popStack popArgs).1
     st2.stack = st.vars :: st.stack ∧
-    (runCmd st2 .popStack popArgs).2 = .continue (some "true".toList) ∧
+    (VarScope.runCmd st2 .popStack popArgs).2 = .continue (some "true".toList) ∧
     st3.stack = st.stack ∧
     ∀ k, Vars.get st3.vars k =
       Map.overlay (Vars.get st.vars) (Vars.get st2.vars) (copyArgs popArgs) k := by
@@ -95,10 +96,10 @@ theorem C11_lifo (st : VsSt) (o1 : Option Str) (pushArgs : List Str) (mid : List
   have hs2 : st2.stack = st.vars :: st.stack :=
     stack_balanced st1 [] (st.vars :: st.stack) mid (by simpa using hs1) hb
   refine ⟨hs2, ?_, ?_, ?_⟩
-  · simp [runCmd, scopePop, hs2]
-  · simp [st3, runCmd, scopePop, hs2]
+  · simp [VarScope.runCmd, VarScope.scopePop, hs2]
+  · simp [st3, VarScope.runCmd, VarScope.scopePop, hs2]
   · intro k
-    simp only [st3, runCmd, scopePop, hs2, get_popMap, get_copyLoop_nil, Map.overlay]
+    simp only [st3, VarScope.runCmd, VarScope.scopePop, hs2, get_popMap, get_copyLoop_nil, Map.overlay]
     by_cases hc : k ∈ copyArgs popArgs
     · simp only [hc, if_true]
       cases Vars.get st2.vars k <;> rfl
@@ -110,10 +111,10 @@ theorem C11_lifo (st : VsSt) (o1 : Option Str) (pushArgs : List Str) (mid : List
     the list) changes nothing. -/
 theorem C11_copy_semantics (vars old : Vars) (stack : List Vars) (copy : List Str) :
     -- push
-    (scopePush vars stack copy).2 = vars :: stack ∧
-    (∀ k, Vars.get (scopePush vars stack copy).1 k = if k ∈ copy then Vars.get vars k else none) ∧
+    (VarScope.scopePush vars stack copy).2 = vars :: stack ∧
+    (∀ k, Vars.get (VarScope.scopePush vars stack copy).1 k = if k ∈ copy then Vars.get vars k else none) ∧
     -- pop
-    (∃ v', scopePop vars (old :: stack) copy = some (v', stack) ∧
+    (∃ v', VarScope.scopePop vars (old :: stack) copy = some (v', stack) ∧
       ∀ k, Vars.get v' k =
         if k ∈ copy then
           (match Vars.get vars k with
@@ -122,28 +123,28 @@ theorem C11_copy_semantics (vars old : Vars) (stack : List Vars) (copy : List St
         else Vars.get old k) ∧
     -- duplicates / order
     (∀ copy', (∀ k, k ∈ copy ↔ k ∈ copy') →
-      (∀ k, Vars.get (scopePush vars stack copy).1 k = Vars.get (scopePush vars stack copy').1 k) ∧
-      (∀ k, (scopePop vars (old :: stack) copy).map (fun r => Vars.get r.1 k) =
-            (scopePop vars (old :: stack) copy').map (fun r => Vars.get r.1 k))) := by
-  have hpush : ∀ c k, Vars.get (scopePush vars stack c).1 k =
+      (∀ k, Vars.get (VarScope.scopePush vars stack copy).1 k = Vars.get (VarScope.scopePush vars stack copy').1 k) ∧
+      (∀ k, (VarScope.scopePop vars (old :: stack) copy).map (fun r => Vars.get r.1 k) =
+            (VarScope.scopePop vars (old :: stack) copy').map (fun r => Vars.get r.1 k))) := by
+  have hpush : ∀ c k, Vars.get (VarScope.scopePush vars stack c).1 k =
       if k ∈ c then Vars.get vars k else none := by
     intro c k
-    simp only [scopePush, get_insertAll_nil, get_copyLoop_nil]
-  have hpop : ∀ c k, (scopePop vars (old :: stack) c).map (fun r => Vars.get r.1 k) =
+    simp only [VarScope.scopePush, get_insertAll_nil, get_copyLoop_nil]
+  have hpop : ∀ c k, (VarScope.scopePop vars (old :: stack) c).map (fun r => Vars.get r.1 k) =
       some (if k ∈ c then
           (match Vars.get vars k with
             | some v => some v
             | none => Vars.get old k)
         else Vars.get old k) := by
     intro c k
-    simp only [scopePop, Option.map, get_popMap, get_copyLoop_nil]
+    simp only [VarScope.scopePop, Option.map, get_popMap, get_copyLoop_nil]
     by_cases hc : k ∈ c
     · simp only [hc, if_true]; rfl
     · simp [hc]
   refine ⟨rfl, hpush copy, ⟨_, rfl, ?_⟩, ?_⟩
   · intro k
     have := hpop copy k
-    simpa [scopePop] using this
+    simpa [VarScope.scopePop] using this
   · intro copy' hm
     refine ⟨fun k => ?_, fun k => ?_⟩
     · rw [hpush, hpush]; simp only [hm k]
